@@ -28,6 +28,15 @@ theorem C10_close_waits_for_worker_first : closeWaitsFirst methods = true := by
 theorem C10_worker_calls_entry_points_only : workerCallsOnlyEntryPoints methods = true := by
   decide +kernel
 
+/-- `Open` starts the background worker as the LAST thing it does with the new database: `recover`
+(which reads and rebuilds index and log without any lock) and `readMeta` run while no other goroutine
+of the database exists. -/
+theorem C10_open_starts_worker_last :
+    openCalls.getLast? = some "DB.startBackgroundWorker" ∧
+    (openCalls.filter (· == "DB.startBackgroundWorker")).length = 1 ∧
+    openCalls.contains "DB.recover" = true := by
+  decide
+
 theorem C10_only_worker_goroutine : onlyWorkerGoroutine methods = true := by
   decide +kernel
 
